@@ -61,11 +61,56 @@ class ToolError(Exception):
         self.msg = msg
 
 
+REFERENCE = os.path.join(os.path.dirname(os.path.abspath(__file__)), "reference_items.json")
+
+
+def _items(d):
+    """module-placed items whose def path is an identity used by the rules: (kind, path)"""
+    out = set()
+    for a in d["adts"]:
+        out.add(("adt", a["path"]))
+    for t in d["traits"]:
+        out.add(("trait", t["path"]))
+    for a in d["aliases"]:
+        out.add(("alias", a["path"]))
+    for f in d["fns"]:
+        if f.get("kind") == "Fn" and "{" not in f["path"] and "<" not in f["path"]:
+            out.add(("fn", f["path"]))
+    return out
+
+
+def relocate(text):
+    """Items are identified by their def path as of the reference tree. An item that moved to another module (same kind, same name, the reference
+    path gone, the match unique on both sides) is given its reference path back, everywhere in the fact base: where an item lives is not behaviour.
+    -> (text, {current path: reference path})"""
+    import re
+    if not os.path.exists(REFERENCE):
+        return text, {}
+    ref = {(k, p) for k, p in json.load(open(REFERENCE))["items"]}
+    cur = _items(json.loads(text))
+    unknown = [x for x in cur if x not in ref]
+    missing = [x for x in ref if x not in cur]
+    if not unknown or not missing:
+        return text, {}
+    ren = {}
+    for k, p in unknown:
+        tail = p.split("::")[-1]
+        cands = [q for (k2, q) in missing if k2 == k and q.split("::")[-1] == tail]
+        same = [q for (k2, q) in unknown if k2 == k and q.split("::")[-1] == tail]
+        if len(cands) == 1 and len(same) == 1:
+            ren[p] = cands[0]
+    for old in sorted(ren, key=len, reverse=True):
+        text = re.sub(r"(?<![A-Za-z0-9_:])" + re.escape(old) + r"(?![A-Za-z0-9_])", ren[old].replace("\\", "\\\\"), text)
+    return text, ren
+
+
 class Facts:
     def __init__(self, path, config="default"):
         self.config = config
         with open(path) as f:
-            self.d = json.load(f)
+            text = f.read()
+        text, self.relocated = relocate(text)
+        self.d = json.loads(text)
         self.crate = self.d["crate"]
         self.fns = {}
         for f in self.d["fns"]:
@@ -195,10 +240,24 @@ def pp_fn(f, out=sys.stdout):
             w("    %s %s\n" % (k, t.get("targets", "")))
 
 
-if __name__ == "__main__":
+if __name__ == "__main__" and "--write-reference" not in sys.argv:
     fx = Facts(sys.argv[1])
     pat = sys.argv[2] if len(sys.argv) > 2 else None
     for f in fx.fn_list:
         if pat is None or pat in f["path"]:
             pp_fn(f)
             print()
+
+
+if __name__ == "__main__" and "--write-reference" in sys.argv:
+    # python3 -m avlint.facts --write-reference : record the item paths of the current /repo tree as the reference identities
+    items = set()
+    for cfg in ("default", "no-alloc"):
+        tmp = tempfile.mkdtemp(prefix="avref-")
+        try:
+            items |= _items(json.load(open(build_facts(cfg, tmp))))
+        finally:
+            shutil.rmtree(tmp, ignore_errors=True)
+    json.dump({"note": "def paths of module-placed items on the reference tree (identities used by rule anchors and finding keys)",
+               "items": sorted(items)}, open(REFERENCE, "w"), indent=0)
+    print("reference items:", len(items))
